@@ -266,12 +266,19 @@ spif_ustr_init_from_fd(spif_ustr_t self, int fd)
     self->len = 0;
     self->s = (spif_charptr_t) MALLOC(self->size);
 
-    for (p = self->s; ((n = read(fd, p, buff_inc)) > 0) || (errno == EINTR);) {
-        self->size += n;
-        self->s = (spif_charptr_t) REALLOC(self->s, self->size);
-        p += n;
+    for (;;) {
+        p = self->s + self->len;
+        n = read(fd, p, buff_inc);
+        if (n > 0) {
+            self->len += n;
+            self->size = self->len + buff_inc;
+            self->s = (spif_charptr_t) REALLOC(self->s, self->size);
+        } else if ((n < 0) && (errno == EINTR)) {
+            continue;
+        } else {
+            break;
+        }
     }
-    self->len = self->size - buff_inc;
     self->size = self->len + 1;
     self->s = (spif_charptr_t) REALLOC(self->s, self->size);
     self->s[self->len] = 0;
